@@ -370,7 +370,7 @@ class C11(P.TextMixin, Harness):
         return {'quick': {'pairs': len(PAIRS), 'texts': len(TEXTS_Q) + len(gen.shapes(3))}, 'thorough': {'pairs': len(PAIRS), 'texts': len(TEXTS_T) + len(gen.shapes(4))}}
 
     def budget(self, tier):
-        return 170 if tier == 'quick' else 1200
+        return 240 if tier == 'quick' else 1200
 
     def units(self, tier):
         from .. import corpus
@@ -383,6 +383,9 @@ class C11(P.TextMixin, Harness):
                 us.append({'pair': pid, 'files': [['main.conf', t]]})
             # the C01 corpus: every balanced shape up to 3 (thorough 4) lines, all tokens symbolic
             shapes = gen.shapes(3) if tier == 'quick' else gen.shapes(4)
+            if tier == 'quick' and pid == 'REC':
+                # what distinguishes this pair is a section INSIDE a section of the derived types
+                shapes = [sh for sh in shapes if len(sh) <= 2 or sh[0] in 'uo']
             for sh in shapes:
                 lines, _ = corpus.template(sh)
                 us.append({'pair': pid, 'shape': sh, 'files': [['main.conf', lines]]})
